@@ -32,6 +32,7 @@ def install(E):
             "functools.wraps": ext_wraps,
         }
     )
-    from . import ext_libs
+    from . import ext_libs, setsum
 
     ext_libs.install(E)
+    setsum.install(E)
